@@ -635,6 +635,13 @@ func init() {
 		"errors.As":           func(fr *frame, a []value) value { return fr.w.errorsAs(fr, a) },
 		"errors.Is":           func(fr *frame, a []value) value { return fr.w.errorsIs(fr, a) },
 		"runtime/debug.Stack": func(fr *frame, a []value) value { return []value(nil) },
+		"runtime.Gosched": func(fr *frame, a []value) value {
+			// a scheduling point: any runnable goroutine (incl. the caller) may continue
+			if w := fr.w; w.gor != nil && w.gor.sched.active {
+				w.gor.sched.yield("gosched")
+			}
+			return nil
+		},
 		"math.Ceil":           func(fr *frame, a []value) value { return fr.w.tb.FCeil(a[0].(T)) },
 		"math.Float64frombits": func(fr *frame, a []value) value { return fr.w.tb.FFromBits(a[0].(T)) },
 		"math.Float32frombits": func(fr *frame, a []value) value { return fr.w.tb.FFromBits(a[0].(T)) },
